@@ -32,7 +32,8 @@ head's next offset once and before its keys (the head's index grows under the wr
 read lock: the order is what makes the two reads one linearizable answer). -/
 theorem source_facts :
     Gen.readRegionLocked = true ∧ Gen.writerGuarded = true ∧ Gen.syncUnderWriterLock = true ∧
-    Gen.rolloverSwapUnderLock = true ∧ Gen.consumeByKeyNextFirst = true := by
+    Gen.rolloverSwapUnderLock = true ∧ Gen.consumeByKeyNextFirst = true ∧
+    Gen.getByTimeRemembersEmptyHead = true := by
   decide
 
 /-- **Linearizability of the lock discipline, for every schedule**: the commit log is a legal
@@ -144,6 +145,20 @@ theorem consumeByKey_spec_l0 (h : Head) (key : List UInt8) (off : Int) (max : Na
   Klev.HeadRead.spec_l0 h key off max hmax hoff hle
 
 open Klev.HeadRead in
+/-- **GetByTime past every message, the head empty when looked at (defect D21, repaired)**: the walk
+that remembers the empty head (`getByTimeRemembersEmptyHead` in `source_facts`) answers what a
+sequential lookup answers at that look; the walk that looks at the head again returns, in the
+counterexample, a message *earlier* than the time asked for, published meanwhile — the sequential
+answer in no state. (Replayed on the real code by the sched profile: `seeded/revert-D21`.) -/
+theorem getByTime_empty_head :
+    (∀ seg ts, gbtRemember seg ts = firstAt (seg ++ []) ts) ∧
+    gbtRelook [⟨0, 5, [], [1]⟩] [⟨1, 7, [], [2]⟩] 10 = some ⟨1, 7, [], [2]⟩ ∧
+    firstAt ([⟨0, 5, [], [1]⟩] ++ []) 10 = none ∧
+    firstAt ([⟨0, 5, [], [1]⟩] ++ [⟨1, 7, [], [2]⟩]) 10 = none :=
+  ⟨Klev.HeadRead.gbtRemember_linearizable, Klev.HeadRead.gbtRelook_counterexample.1,
+   Klev.HeadRead.gbtRelook_counterexample.2.1, Klev.HeadRead.gbtRelook_counterexample.2.2.1⟩
+
+open Klev.HeadRead in
 /-- The two-look read *is* the modelled `reader.ConsumeByKey` (the function the C09 theorems and the
 correspondence are about) when its context carries the next offset of an earlier state of the head
 than the records and index it reads: the theorems above are theorems about the modelled function. -/
@@ -220,6 +235,7 @@ end NonVacuity
 #print axioms Klev.C08.publish_refines
 #print axioms Klev.C08.delete_refines
 #print axioms Klev.C08.reads_look_once
+#print axioms Klev.C08.getByTime_empty_head
 #print axioms Klev.C08.consumeByKey_two_looks
 #print axioms Klev.C08.consumeByKey_no_skip
 #print axioms Klev.C08.consumeByKey_spec_l0
